@@ -77,6 +77,7 @@ type Iface struct {
 type Closure struct {
 	Fn    *ssa.Function
 	Binds []Value
+	Stub  string // non-empty: a modelled third-party function value (see thirdParty / stubCall)
 }
 
 type Tuple []Value
@@ -2680,6 +2681,9 @@ func (e *Exec) callInstr(fr *Frame, c *ssa.CallCommon, site ssa.Value) Value {
 	}
 	fv := e.get(fr, c.Value)
 	cl, ok := fv.(Closure)
+	if ok && cl.Stub != "" {
+		return e.stubCall(cl, args)
+	}
 	if !ok || cl.Fn == nil {
 		if ok {
 			e.runtimePanic("call of nil function")
